@@ -15,7 +15,8 @@ RULE = ("case = one script line.  W: window-tree / restack-queue lifecycle scrip
         "reposition, a terminal resize, window pens and scrollrect with a pen, key and mouse events and EXPOSE / FOCUS / "
         "GEOMCHANGE bindings (focus_child_notify included) whose handlers run further calls); T: a copy-out call (get_cell_text / get_span / "
         "mockterm get_display_text) into malloc(len) for every len from 0 to two beyond the text; O: lifecycle script "
-        "over pens, strings, render buffers, terminals (mock and xterm) and the toplevel instance; R: the pen stack of a render "
+        "over pens, strings, render buffers, terminals (mock and xterm; output buffer resized with output pending; KEY handlers "
+        "of terminals and CHANGE handlers of pens that drop references) and the toplevel instance; R: the pen stack of a render "
         "buffer (setpen NULL / empty / with attributes at every depth of save and savepen frames, restore, whole-line "
         "text and erase, clear, reset, flush to an xterm and to the mock terminal, drop; observation = live pens, strings "
         "and stack frames of the buffer after every call).  Every case runs in "
@@ -55,6 +56,8 @@ TRUSTED = [
     "model coq/LifePenDefs.v hand-written after the pen / string reference counting of src/renderbuffer.c; "
     "coq/LifeBindDefs.v hand-written after src/bindings.c (heap twin of coq/BindDefs.v, not tested against the C separately)",
     "the harness harness/C08.c (+C08_objs.inc): script interpreter, fork per case, classification of sanitizer reports",
+    "ocaml/drv_C08.ml expand_O: the O model has no handlers; a handler H<i>.<j> (drops one reference to j at the owner's next "
+    "KEY / CHANGE event) is expanded into that unref after each library call that dispatches the event",
 ]
 
 FLAG_HIDDEN, FLAG_LOWEST, FLAG_ROOTPARENT, FLAG_STEAL = 1, 2, 4, 8
@@ -533,6 +536,11 @@ def gen_O(tier, seed, info):
         "O T+x o0.64 w0.616263 w0.646566 o0.4 w0.6162 F0 u0", "O T+x o0.64 w0.616263 o0.128 w0.6162 F0 o0.0 w0.61 u0",
         "O T+x o0.16 w0.616263 G0 o0.2 G0 w0.e4b8ad F0 u0", "O T+x o0.8 o0.8 w0.61 o0.1 w0.6162 o0.0 F0 u0",
         "O T+m o0.16 w0.6162 o0.2 w0.6162 F0 u0",
+        # a KEY handler of a terminal / a CHANGE handler of a pen drops a reference - the last one - to its own object
+        "O T+m H0.0 k0", "O T+x H0.0 k0", "O T+m r0 H0.0 k0 u0", "O T+m H0.0 i0.41", "O T+x H0.0 i0.4142", "O T+m H0.0 H0.0 r0 k0",
+        "O T+x K+0 H0.1 k0 u0", "O T+x K+0 H0.0 k0 u1", "O T+m P+ H0.1 k0 u0", "O T+m T+m H0.1 H1.0 k0 k1",
+        "O P+ H0.0 a0.0", "O P+ H0.0 a0.2", "O P+ r0 H0.0 a0.1 u0", "O P+ r0 H0.0 a0.3 u0", "O P+ P+ H0.1 H1.0 a0.0",
+        "O P+ B+ p1.0 H0.0 a0.0 t1.616263 u1", "O P+ T+x H0.0 p1.0 a0.0 w1.6162 u1",
     ]
     for sizes in itertools.product((0, 1, 3, 16, 64), repeat=3):
         fixed.append("O T+x o0.%d w0.616263 G0 o0.%d w0.e4b8ad61 P+ a1.1 p0.1 o0.%d w0.6162 F0 u1 u0" % sizes)
@@ -542,6 +550,14 @@ def gen_O(tier, seed, info):
     for _ in range(n):
         objs = []      # (kind, held)
         toks = []
+        hooks = []     # [owner, target, armed]: H handlers (fire on the owner's next KEY / CHANGE event)
+
+        def fire(owner):
+            for h in hooks:
+                if h[0] == owner and h[2]:
+                    h[2] = False
+                    objs[h[1]][1] -= 1
+
         for _ in range(rnd.randint(3, 16)):
             live = [i for i, (k, h) in enumerate(objs) if h > 0]
             r = rnd.random()
@@ -566,12 +582,16 @@ def gen_O(tier, seed, info):
                 toks.append("r%d" % i); objs[i][1] += 1
             elif r < 0.5:
                 toks.append("u%d" % i); objs[i][1] -= 1
+            elif r < 0.56 and k in "PT":
+                j = rnd.choice(live)
+                toks.append("H%d.%d" % (i, j)); hooks.append([i, j, True])
             elif k == 'P':
                 c = rnd.choice("adeyc")
                 if c == 'a':
-                    toks.append("a%d.%d" % (i, rnd.randint(0, 2)))
+                    toks.append("a%d.%d" % (i, rnd.randint(0, 2))); fire(i)
                 elif c == 'y':
-                    toks.append("y%d.%d" % (i, rnd.choice(pens)))
+                    if not any(h[0] == i for h in hooks):      # whether a copy changes anything depends on the attributes
+                        toks.append("y%d.%d" % (i, rnd.choice(pens)))
                 elif c == 'c':
                     toks.append("Pc%d" % i); objs.append(['P', 1])
                 else:
@@ -598,7 +618,7 @@ def gen_O(tier, seed, info):
                 else:
                     toks.append("%s%d" % (c, i))
             elif k == 'T':
-                c = rnd.choice("wFGZkdphoo")
+                c = rnd.choice("wFGZkkdphooi")
                 if c == 'w':
                     toks.append("w%d.%s" % (i, rnd.choice(["6162", "c3a9", "e4b8ad"])))
                 elif c in "ph":
@@ -606,6 +626,10 @@ def gen_O(tier, seed, info):
                         toks.append("%s%d.%d" % (c, i, rnd.choice(pens)))
                 elif c == 'o':
                     toks.append("o%d.%d" % (i, rnd.choice([0, 1, 2, 5, 16, 64, 256])))
+                elif c == 'i':
+                    toks.append("i%d.%s" % (i, rnd.choice(["41", "4142", "61"]))); fire(i)
+                elif c == 'k':
+                    toks.append("k%d" % i); fire(i)
                 else:
                     toks.append("%s%d" % (c, i))
         if rnd.random() < 0.85:
